@@ -9,7 +9,21 @@ import random, os, json
 from vlib import core, symrun, flow
 
 PID = "C13"
-STRATS = ["mgsr", "mgsr_expr", "pivv", "pivv_expr", "pivm", "pivm_expr"]
+STRATS = ["mgsr", "mgsr_expr", "pivv", "pivv_expr", "pivm", "pivm_expr", "mgsr_sum", "mgsr_trans", "pivv_sum", "pivm_trans"]
+NOPIV = [0, 1, 6, 7]; PIVV = [2, 3, 8]; PIVM = [4, 5, 9]
+VBITS = {"scalar": 0, "sse2": 128, "sse42": 128, "avx": 256, "avx2": 256, "avx512": 512}
+
+def vsizes(isa, t):
+    """row lengths around the multiples of the vector width V of (isa, element type): V-1, V, V+1, 2V+1, 3V+2"""
+    v = max(1, VBITS[isa] // (32 if t == "float" else 64))
+    return sorted(set(x for x in (v - 1, v, v + 1, 2 * v + 1, 3 * v + 2) if x >= 1))
+
+def pick(rng, k):
+    """k entry points, at least one unpivoted, one index-vector pivot, one matrix pivot when k >= 3"""
+    base = [rng.choice(NOPIV), rng.choice(PIVV), rng.choice(PIVM)]
+    rest = [x for x in range(10) if x not in base]
+    rng.shuffle(rest)
+    return sorted((base + rest)[:k]) if k >= 3 else sorted(rng.sample(base, k))
 
 def rat_groups(tier, seed):
     rng = random.Random(seed * 7331 + 13)
@@ -24,14 +38,14 @@ def rat_groups(tier, seed):
         else:
             sizes = [1, 2, 3, 5, 8, 12]
         for n in sizes:
-            if n <= 12 and full and (thorough or n <= 5):
-                strats = list(range(6))
+            if n <= 12 and full and (thorough or n <= 4):
+                strats = list(range(10))
             elif n <= 12 and full:
-                strats = sorted(set([rng.choice([0, 1]), rng.choice([2, 3]), rng.choice([4, 5]), rng.randrange(6)]))
+                strats = pick(rng, 4)
             elif n <= 12:
-                strats = sorted(rng.sample(range(6), 2))
+                strats = pick(rng, 3)
             else:
-                strats = [0, 2, 5]
+                strats = pick(rng, 3)
             for s in strats:
                 # the four kinds of rational orthogonal factor are selected by seed % 4
                 nseeds = (8 if thorough else 2) if n > 1 else 2
@@ -41,7 +55,7 @@ def rat_groups(tier, seed):
                     calls.append("run_qr<%d,%d>(%du);" % (n, s, base + 4 * t * 977 + k))
         # arbitrary rational inputs (inexact pseudo-roots): Q*R == P*A, zero pattern, pivot, and the model digit for digit
         for n in ([2, 3, 4] if not thorough else [2, 3, 4, 5]):
-            for s in (range(6) if (full and n <= 4) else sorted(rng.sample(range(6), 2))):
+            for s in (pick(rng, 6) if (full and n <= 4) else pick(rng, 2)):
                 for t in range(2 if not thorough else 5):
                     calls.append("run_qr_free<%d,%d>(%du);" % (n, s, rng.randrange(1, 1 << 20)))
         groups.append({"key": "rat/%s" % isa, "header": "qr_rat.h", "isa": isa, "opt": "-O1", "calls": calls})
@@ -52,7 +66,7 @@ def rat_groups(tier, seed):
     for isa, opt, std in extra:
         calls = []
         for n in ([3, 7] if not thorough else [2, 4, 7, 12]):
-            for s in ([0, 3, 4] if not thorough else [0, 1, 3, 4]):
+            for s in ([0, 3, 9] if not thorough else [0, 7, 3, 4, 8]):
                 calls.append("run_qr<%d,%d>(%du);" % (n, s, rng.randrange(1, 1 << 22)))
         groups.append({"key": "rat/%s/%s/%s" % (isa, opt, std), "header": "qr_rat.h", "isa": isa, "opt": opt, "std": std, "calls": calls})
     return groups
@@ -66,17 +80,17 @@ def bits_groups(tier, seed):
     for isa in isas:
         for t in ("double", "float"):
             lcs = [0, 10, 30, 60, 80] if t == "double" else [0, 10, 20, 30]
-            sizes = [1, 2, 3, 4, 5, 8, 12, 16] if not thorough else list(range(1, 17)) + [20, 24]
+            sizes = vsizes(isa, t) if not thorough else sorted(set(vsizes(isa, t) + list(range(1, 13)) + [16, 20]))
             calls = []
             for n in sizes:
-                strats = [rng.choice([0, 1]), rng.choice([2, 3, 4, 5])] if not thorough else [rng.choice([0, 1]), rng.choice([2, 3]), rng.choice([4, 5])]
+                strats = pick(rng, 2) if not thorough else pick(rng, 3)
                 for s in strats:
                     for r in range(2 if not thorough else 3):
                         calls.append("run_qrbits<%s,%d,%d>(%du,%d);" % (t, n, s, rng.randrange(1, 1 << 24), rng.choice(lcs)))
             groups.append({"key": "bits/%s/%s" % (isa, t), "header": "qr_bits.h", "isa": isa, "opt": "-O2", "defs": ["-ffp-contract=off"], "calls": calls})
     if thorough:
         for opt in ("-O0", "-O1", "-O3"):
-            calls = ["run_qrbits<%s,%d,%d>(%du,%d);" % (t, n, s, rng.randrange(1, 1 << 24), 30) for t in ("double", "float") for n in (3, 8, 13) for s in (0, 3, 4)]
+            calls = ["run_qrbits<%s,%d,%d>(%du,%d);" % (t, n, s, rng.randrange(1, 1 << 24), 30) for t in ("double", "float") for n in (3, 8, 13) for s in (0, 3, 9, 6)]
             groups.append({"key": "bits/avx2/%s" % opt, "header": "qr_bits.h", "isa": "avx2", "opt": opt, "std": "c++17", "defs": ["-ffp-contract=off"], "calls": calls})
     return groups
 
@@ -105,10 +119,10 @@ def real_groups(tier, seed):
         for t in ("float", "double"):
             lcs = ([0, 10, 30] if t == "float" else [0, 30, 60]) if not thorough else \
                   ([0, 5, 10, 20, 30, 35] if t == "float" else [0, 10, 30, 50, 60, 80])
-            sizes = ([1, 2, 3, 5, 8, 16] if not thorough else list(range(1, 17)) + [20, 24, 32])
+            sizes = ([1, 3, 5, 8, 16] if not thorough else sorted(set(list(range(1, 17)) + [20, 24, 32] + vsizes(isa, t))))
             calls = []
             for n in sizes:
-                strats = [rng.choice([0, 1]), rng.choice([2, 3, 4, 5])] if not thorough else [rng.choice([0, 1]), rng.choice([2, 3]), rng.choice([4, 5])]
+                strats = pick(rng, 2) if not thorough else pick(rng, 3)
                 for s in strats:
                     for r in range(3 if not thorough else 4):
                         calls.append("run_qrreal<%s,%d,%d>(%du,%d);" % (t, n, s, rng.randrange(1, 1 << 24), rng.choice(lcs)))
@@ -146,6 +160,28 @@ def ofail_key(f):
 
 def run(tier, seed):
     acc = acceptance_probe()
+    # coverage of what hides easily: negative determinants, pivots that are not involutions, ties in the pivot search,
+    # row lengths around the vector widths.  (Mutable containers: the flow reads them after all lines were classified.)
+    counts = {"negative_determinant_cases": 0, "positive_determinant_cases": 0, "pivots_with_a_cycle_of_length_ge_3": 0,
+              "pivot_searches_with_a_tie": 0}
+    stats = {"counts": counts, "negative_determinant_sizes": [], "exact_sizes": [], "bit_exact_sizes": {}}
+    def add(lst, x):
+        if x not in lst:
+            lst.append(x); lst.sort()
+    def nontrivial(inp, mo):
+        d = symrun.kv(inp); m = symrun.kv(mo)
+        n = int(d.get("n", 0))
+        if inp.startswith("qrf"):
+            add(stats["bit_exact_sizes"].setdefault("%s/%s" % (d.get("cfg"), d.get("T")), []), n)
+        else:
+            add(stats["exact_sizes"], n)
+            if d.get("dsign") == "-1":
+                counts["negative_determinant_cases"] += 1; add(stats["negative_determinant_sizes"], n)
+            elif d.get("dsign") == "1":
+                counts["positive_determinant_cases"] += 1
+            if m.get("PCYC", "1").isdigit() and int(m["PCYC"]) >= 3: counts["pivots_with_a_cycle_of_length_ge_3"] += 1
+            if m.get("TIE") == "1": counts["pivot_searches_with_a_tie"] += 1
+        return n != 1
     return flow.standard_run(
         PID, tier, seed, "Fastor.C13.qr_correct", "FastorModel.Model.QR", sym_groups, real_groups,
         assumptions=[
@@ -161,8 +197,8 @@ def run(tier, seed):
              "bit cases: (flag set, float|double, n, entry point, matrix of prescribed condition number) runs of the real qr<...> compiled with -ffp-contract=off, "
              "Q, R (IEEE bit patterns) and P compared with the Lean model over Float/Float32; "
              "non-trivial = n >= 2; real cases: float/double runs judged by the in-harness bounds",
-        nontrivial=lambda inp, mo: symrun.kv(inp).get("n") not in ("1",),
-        extra_cov={"public_qr_accepts": acc}, per_tu=14, ofail_key=ofail_key)
+        nontrivial=nontrivial,
+        extra_cov={"public_qr_accepts": acc, "pivot_and_determinant_coverage": stats}, per_tu=14, ofail_key=ofail_key)
 
 def sym_call_of(inp):
     d = symrun.kv(inp)
